@@ -27,6 +27,9 @@ def main():
             r = subprocess.run(['sh', os.path.join(VERIF, 'engine', 'on_tree.sh'), 'HEAD', '--patch',
                                 os.path.join(p, 'patch.diff'), '--', prop], stdout=subprocess.PIPE,
                                stderr=subprocess.STDOUT, universal_newlines=True)
+            if r.returncode == 3 and 'PATCH-DOES-NOT-APPLY' in r.stdout:
+                outcome = 'stale (patch does not apply to HEAD)'
+                continue
             rules = sorted(set(re.findall(r'violated: (C\d+\.R\d+)', r.stdout)))
             if r.returncode == 1 and rules:
                 det += rules
